@@ -640,7 +640,7 @@ func (e *Enc) encAppend(fr *Frame, st *State, cc *ssa.CallCommon, args []*Val, r
 		// in place: cells outside the appended window keep their value
 		e.assert(implies(fits, "(forall ((j Int)) (! (=> (or (< j (+ "+off+" "+ln+")) (>= j (+ "+off+" "+nlen+"))) (= (select "+na+" j) (select (select "+h+" "+base+") j))) :pattern ((select "+na+" j))))"))
 		// common special case: appending exactly one element gives a direct equation (helps the solvers)
-		e.heapSet(st, k, sorts[i], "(store "+h+" "+nb+" "+na+")")
+		e.withRef(base, func() { e.heapSet(st, k, sorts[i], "(store "+h+" "+nb+" "+na+")") }) // base itself, or a new backing
 		if b, ok := sl.Elem().Underlying().(*types.Basic); ok && b.Kind() == types.Uint8 && !isStr && len(keys) == 1 {
 			e.bcatFact(e.bseqTerm(na, no, nlen), e.bseqTerm("(select "+h+" "+base+")", off, ln), e.bseqTerm("(select "+h+" "+tbase+")", toff, tlen))
 		}
